@@ -83,7 +83,9 @@ def run_one(scn_seed, miri_seed, threads_mask=None, max_ops=None, population=Non
         args += ["--max-ops", str(max_ops)]
     t0 = time.time()
     try:
-        r = subprocess.run(args, cwd=MIRI_DIR, env=_env(miri_seed), stdout=subprocess.PIPE, stderr=subprocess.STDOUT, text=True, timeout=TIMEOUT_S)
+        # (the largest special executions of the thorough tier - 257 threads, 81 920 cells - get four times the cap)
+        cap = TIMEOUT_S * 4 if population and (population > 200 or population in (-8, -108)) else TIMEOUT_S
+        r = subprocess.run(args, cwd=MIRI_DIR, env=_env(miri_seed), stdout=subprocess.PIPE, stderr=subprocess.STDOUT, text=True, timeout=cap)
         rc, out = r.returncode, r.stdout
     except subprocess.TimeoutExpired as ex:
         rc, out = -9, (ex.stdout or "") + "\nTIMEOUT"
